@@ -39,6 +39,64 @@ theorem normalize_eq_iff_lower_eq (a b : Str) : normalize a = normalize b ↔ a.
   · intro h
     rw [← normalize_lower a, ← normalize_lower b, h]
 
+theorem joinWith_cons_cons (sep : Str) (a : Nat) (w : Str) (rest : List Str) :
+    joinWith sep ((a :: w) :: rest) = a :: joinWith sep (w :: rest) := by
+  cases rest <;> simp [joinWith]
+
+/-- `_normalize_header` written out character by character, for EVERY name (no restriction to letters and
+    hyphens): the split/capitalize/join pipeline upper-cases exactly the first character of each `-`-separated
+    word and lower-cases everything else (second component: the same for a word already begun). -/
+theorem normalize_headerCase_aux (s : Str) :
+    normalize s = Spec.headerCase true s ∧
+    (∀ w ws, splitOnC cDash s = w :: ws →
+      joinWith [cDash] (w.map lowerC :: ws.map capitalize) = Spec.headerCase false s) := by
+  induction s with
+  | nil =>
+    refine ⟨by simp [normalize, splitOnC, joinWith, Spec.headerCase, capitalize], ?_⟩
+    intro w ws h
+    simp [splitOnC] at h
+    obtain ⟨rfl, rfl⟩ := h
+    simp [joinWith, Spec.headerCase]
+  | cons c cs ih =>
+    obtain ⟨ih1, ih2⟩ := ih
+    cases hs : splitOnC cDash cs with
+    | nil => exact absurd hs (splitOnC_ne_nil _ _)
+    | cons w0 ws0 =>
+      by_cases hc : c = cDash
+      · subst hc
+        have hn : normalize cs = joinWith [cDash] (capitalize w0 :: ws0.map capitalize) := by
+          simp [normalize, hs]
+        have hsplit : splitOnC cDash (cDash :: cs) = [] :: w0 :: ws0 := by simp [splitOnC, hs]
+        have hh : ∀ b, Spec.headerCase b (cDash :: cs) = cDash :: Spec.headerCase true cs := by
+          intro b; simp [Spec.headerCase]
+        refine ⟨?_, ?_⟩
+        · rw [hh, ← ih1, hn]
+          simp [normalize, hsplit, capitalize, joinWith]
+        · intro w ws h
+          rw [hsplit] at h
+          obtain ⟨rfl, rfl⟩ := List.cons.inj h
+          rw [hh, ← ih1, hn]
+          simp [joinWith]
+      · have hsplit : splitOnC cDash (c :: cs) = (c :: w0) :: ws0 := by simp [splitOnC, hc, hs]
+        have ht := ih2 w0 ws0 hs
+        refine ⟨?_, ?_⟩
+        · have : Spec.headerCase true (c :: cs) = upperC c :: Spec.headerCase false cs := by
+            simp [Spec.headerCase, hc]
+          rw [this, ← ht]
+          simp only [normalize, hsplit, List.map, capitalize]
+          rw [joinWith_cons_cons]
+        · intro w ws h
+          rw [hsplit] at h
+          obtain ⟨rfl, rfl⟩ := List.cons.inj h
+          have : Spec.headerCase false (c :: cs) = lowerC c :: Spec.headerCase false cs := by
+            simp [Spec.headerCase, hc]
+          rw [this, ← ht]
+          simp only [List.map]
+          rw [joinWith_cons_cons]
+
 example : normalize ("coNtent-TYPE".toList.map Char.toNat) = "Content-Type".toList.map Char.toNat := by decide
+
+example : normalize ("P3P".toList.map Char.toNat) = "P3p".toList.map Char.toNat := by decide
+example : normalize ("x_FORWARDED_for-a.B".toList.map Char.toNat) = "X_forwarded_for-A.b".toList.map Char.toNat := by decide
 
 end TornadoModel.C06.Norm
